@@ -101,7 +101,7 @@ func TestC44_ValidateTransactions(t *testing.T) {
 		t.Fatalf("VERIF-HARNESS-ERROR C44 part validate was built without -race: the race detector is the oracle")
 	}
 	const knownKey = "validate-transactions-plain-flags"
-	st := vkit.For("C44")
+	st := vkit.For("C44").SetRule(c44kit.Rule)
 	mc := c44vSetup()
 	var salt int
 	var roundBase int64 // the chain's current round only moves forward: every case works 100 rounds further on
@@ -201,6 +201,12 @@ func TestC44_ValidateTransactions(t *testing.T) {
 		for _, x := range blocks {
 			if x.batches >= 2 && (x.invalid > 0 || x.moveOn) {
 				nt = true
+			}
+			if st.IsKnown(knownKey) && x.batches >= 2 && len(blocks) >= 2 {
+				// while the flags finding is open no flag may be raised; what is left to explore is the batch
+				// goroutines of several all-valid blocks running side by side
+				nt = true
+				st.Class("validate/known_open_only_valid_blocks")
 			}
 			if x.invalid > 0 {
 				st.Class("validate/flag_raised_by_invalid_txn")
